@@ -347,8 +347,9 @@ pub fn c06(ctx: &mut Ctx) {
         // commit phase on the real transcript
         let (co, pts) = real_commit(&inst);
         ctx.stats.evaluations += 1;
+        let variant06 = ctx.variant.clone();
         let mk_replay = |call: &FriCall, expect: &str, o: &Outcome, extra: Value| {
-            replay_envelope("C06", scenario, &ctx.variant, json!({"call": "fri_verify", "args": call.to_json(), "digest": hexf(&inst.digest), "expect": expect, "expected_outcome": o.describe(), "extra": extra}))
+            replay_envelope("C06", scenario, &variant06, json!({"call": "fri_verify", "args": call.to_json(), "digest": hexf(&inst.digest), "expect": expect, "expected_outcome": o.describe(), "extra": extra}))
         };
         match pts {
             Some(p) if p == inst.call.eval_points => {}
@@ -370,8 +371,48 @@ pub fn c06(ctx: &mut Ctx) {
             ctx.stats.sample(json!({"shape": format!("{shape:?}"), "degree_len": deg_len, "queries": queries, "outcome": o.class()}));
         }
         if !o.is_accept() {
-            let rep = mk_replay(&inst.call, "ok", &o, json!({"degree_len": deg_len}));
-            ctx.violation(&format!("C06|honest-rejected|{}", o.class()), &format!("honest FRI instance rejected: {} shape {sc} queries {queries:?}", o.describe()), rep);
+            let class = format!("C06|honest-rejected|{}", o.class());
+            if ctx.seen_class(&class) {
+                ctx.violation(&class, "", Value::Null);
+                continue;
+            }
+            // shape shrinking: the smallest ladder shape / query set whose honest instance is rejected
+            let mut reported = false;
+            'shrink: for (steps, last, blow) in [(&[0u32, 1][..], 0u32, 1u32), (&[0, 1][..], 1, 1), (&[0, 2][..], 0, 1), (&[0, 1, 1][..], 0, 1), (&[0, 1, 2][..], 0, 1), (&[0, 2, 1][..], 1, 1), (&[0, 3][..], 1, 2), (&[0, 4][..], 0, 1), (&[0, 1, 3][..], 1, 1), (&[0, 1, 2, 4][..], 0, 1)] {
+                let sum: u32 = steps.iter().sum();
+                let sh = FriShape { log_input: sum + last + blow, steps: steps.to_vec(), log_last_bound: last, n_friendly: shape.n_friendly.min((sum + last + blow) as u64 + 2) };
+                let n = 1u64 << sh.log_input;
+                let w0 = 1u64 << steps[1];
+                let all: Vec<u64> = (0..n).collect();
+                let coset: Vec<u64> = (0..w0).collect();
+                for qs in [vec![0u64], vec![n - 1], coset.clone(), vec![0, n - 1], vec![w0 - 1, w0], all.clone()] {
+                    let mut qs = qs.clone();
+                    qs.sort();
+                    qs.dedup();
+                    for sparse in [false, true] {
+                        let mut r2 = Rng::new(ctx.seed ^ k ^ (sh.log_input as u64) << 3 ^ qs.len() as u64);
+                        let mut c2 = random_poly(&mut r2, 1usize << sh.log_degree_bound());
+                        if sparse {
+                            let l = c2.len();
+                            for c in c2.iter_mut().skip(1).take(l.saturating_sub(2)) {
+                                *c = Felt::ZERO;
+                            }
+                        }
+                        let i2 = build_instance(&mut r2, sh.clone(), c2, None, qs.clone());
+                        let o2 = i2.call.run_verify();
+                        if !o2.is_accept() {
+                            let rep = mk_replay(&i2.call, "ok", &o2, json!({"minimised_from": sc}));
+                            ctx.violation(&class, &format!("honest FRI instance rejected: {} shape {} queries {qs:?}{} (minimised from shape {sc}, {} queries)", o2.describe(), shape_class(&sh, qs.len()), if sparse { " sparse polynomial" } else { "" }, queries.len()), rep);
+                            reported = true;
+                            break 'shrink;
+                        }
+                    }
+                }
+            }
+            if !reported {
+                let rep = mk_replay(&inst.call, "ok", &o, json!({"degree_len": deg_len}));
+                ctx.violation(&class, &format!("honest FRI instance rejected: {} shape {sc} queries {queries:?}", o.describe()), rep);
+            }
             continue;
         }
         match check_fold_identity(&inst) {
